@@ -296,7 +296,7 @@ impl C09 {
         }
 
         // 2. scheduled executions
-        let cfg = SimConfig { workers, reference: false, yield_gap, deliver: None, max_leaf };
+        let cfg = SimConfig { workers, reference: false, yield_gap, deliver: None, deliver_expect: 0, max_leaf };
         match run_pipeline(&sc, &cfg, &sched, k) {
             Err(p) => viol.push(Violation::new("pipeline-panicked", 0, format!("execution with {} workers under {:?} panicked: {}", workers, sched, p))),
             Ok(results) => {
@@ -341,7 +341,7 @@ impl C09 {
         if sc.replicas >= 2 && reference.error.is_none() {
             let mut singles: Vec<PipeResult> = vec![];
             for i in 0..sc.replicas as usize {
-                let c = SimConfig { workers: 1, reference: true, yield_gap: 0, deliver: Some(vec![i]), max_leaf: 0 };
+                let c = SimConfig { workers: 1, reference: true, yield_gap: 0, deliver: Some(vec![i]), deliver_expect: sc.replicas as usize, max_leaf: 0 };
                 match run_pipeline(&sc, &c, &Sched::Random(0), 1) {
                     Ok(mut v) => {
                         let r = v.pop().ok_or("no single result")?;
@@ -355,7 +355,13 @@ impl C09 {
                     }
                 }
             }
-            if singles.len() == sc.replicas as usize {
+            let applicable = singles.iter().all(|s| s.stats.subset_not_applicable == 0);
+            if !applicable {
+                // the pipeline's first parallel iterator is not over the replica indices: "replica i
+                // alone" cannot be produced this way, and nothing is concluded from the attempt
+                out.count("probe.single_index_delivery_not_applicable", 1);
+            }
+            if applicable && singles.len() == sc.replicas as usize {
                 if !singles.iter().any(|s| s.json == reference.json && s.svg == reference.svg) {
                     viol.push(Violation::new(
                         "replica-result-depends-on-others",
@@ -370,7 +376,7 @@ impl C09 {
                     if d.is_empty() {
                         d.push(rng.below(sc.replicas) as usize);
                     }
-                    let c = SimConfig { workers, reference: false, yield_gap, deliver: Some(d.clone()), max_leaf };
+                    let c = SimConfig { workers, reference: false, yield_gap, deliver: Some(d.clone()), deliver_expect: sc.replicas as usize, max_leaf };
                     match run_pipeline(&sc, &c, &Sched::Random(rng.next_u64() >> 20), 1) {
                         Ok(mut v) => {
                             if let Some(r) = v.pop() {
